@@ -245,6 +245,66 @@ def parse_grid(run, tmp, tier):
     run.extra["parse_grid"] = stats
 
 
+
+# ---------------------------------------------------------------------------------------------------------------
+# exact id matching on the engine's own query objects
+# ---------------------------------------------------------------------------------------------------------------
+def _id_exact_worker(_=None):
+    """the real Path.to_smt2() query of a path with many conditions (ids of different lengths), and the real
+    check_unsat_cores: a core matches only through ids that ARE assertion ids of the query -- never through a digit string
+    that merely occurs inside one, and never when one of its ids is missing"""
+    import z3
+    import halmos.solve as hs
+    from halmos.sevm import Path
+    from halmos.utils import create_solver
+    from lib import e2e
+
+    args = e2e.mk_args(cache_solver=True)
+    keep = [z3.BitVec(f"pad{i}", 8) + i for i in range(1500)]  # push AST ids into the thousands
+    path = Path(create_solver())
+    x = z3.BitVec("qx", 256)
+    for i in range(60):
+        path.append(z3.ULT(x + i, 1000 + 7 * i))
+        keep.append(z3.BitVec(f"pad2{i}", 8) * i)
+    q = path.to_smt2(args)
+    ids = q.assertions.split() if isinstance(q.assertions, str) else [str(a) for a in q.assertions]
+    idset = set(ids)
+    bad, n = [], 0
+    for i in ids:
+        subs = {i[a:b] for a in range(len(i)) for b in range(a + 1, len(i) + 1)} - idset
+        for t in sorted(subs)[:12]:
+            n += 1
+            if hs.check_unsat_cores(q, [[t]]):
+                bad.append(("substring", i, t))
+            n += 1
+            if hs.check_unsat_cores(q, [[ids[0], t]]):
+                bad.append(("substring+real", i, t))
+    for i in ids[:10]:
+        n += 1
+        if not hs.check_unsat_cores(q, [[i]]):
+            bad.append(("own-id-missed", i, i))
+    return {"n": n, "ids": len(ids), "bad": bad[:5], "nbad": len(bad), "lens": sorted({len(i) for i in ids})}
+
+
+def id_exact(run):
+    r = common.parallel_map(_id_exact_worker, [None], 1)[0]
+    if isinstance(r, tuple) and r and r[0] == "error":
+        run.harness_error("id-exact worker crashed: " + r[1].strip().splitlines()[-1])
+        return
+    if r["nbad"]:
+        kind, i, t = r["bad"][0]
+        again = common.parallel_map(_id_exact_worker, [None], 1)[0]
+        if isinstance(again, dict) and again.get("nbad"):
+            run.violation("core-id-exact", f"core-id-exact/{kind}",
+                          f"check_unsat_cores on the engine's own query ({r['ids']} ids): the core [{t!r}] is reported as contained in the "
+                          f"query although {t!r} is not one of its assertion ids (it occurs inside the id {i!r}): such a core answers a "
+                          f"satisfiable query unsat", {"kind": kind, "id": i, "core": t, "examples": r["bad"]})
+        else:
+            run.inconc("core-id-exact", "all", "did not reproduce")
+    else:
+        run.ok("core-id-exact", f"{r['n']}-lookups", nontrivial=True)
+    run.extra["id_exact"] = {k: r[k] for k in ("n", "ids", "lens")}
+
 # ---------------------------------------------------------------------------------------------------------------
 # Route P
 # ---------------------------------------------------------------------------------------------------------------
@@ -409,6 +469,7 @@ def main(run):
             th.start()
         if wanted(run, "grid"):
             parse_grid(run, tmp, tier)
+            id_exact(run)
         sums = []
         if pool is not None:
             try:
